@@ -180,7 +180,28 @@ func zzConfine(kind int) {
 	name := zzKindName[kind]
 	inside := zzInsideRef()
 	L := nd.Param("L", 4)
-	p := nd.StringUpTo("p", L)
+	var p string
+	// the path under test: any byte string up to L bytes, or one of the
+	// climbing shapes (longer than L) with symbolic one-byte names
+	name1 := func(label string) string {
+		n := nd.String(label, 1)
+		nd.Assume(nd.And(nd.And(n != "/", n != "."), n[0] != 0))
+		return n
+	}
+	switch nd.Choose("shape", 1+nd.Param("SHAPES", 5)) {
+	case 0:
+		p = nd.StringUpTo("p", L)
+	case 1:
+		p = "../" + name1("n") + "/" + name1("m")
+	case 2:
+		p = "../../" + name1("n") + "/" + name1("m")
+	case 3:
+		p = name1("n") + "/../../" + name1("m") + "/" + name1("k")
+	case 4:
+		p = "/../" + name1("n") + "/" + name1("m")
+	default:
+		p = "./../" + name1("n") + "/../" + name1("m") + "/" + name1("k")
+	}
 	segs, _ := reftree.Norm(p)
 	op := nd.Choose("op", 14)
 	switch op {
@@ -269,11 +290,6 @@ func zzConfine(kind int) {
 		if op == 11 && !escSrc {
 			src = "d"
 		}
-		// a destination inside the source is outside the claim (on disk the
-		// walk chases its own output)
-		ss, _ := reftree.Norm(src)
-		ds, _ := reftree.Norm(dst)
-		nd.Assume(!reftree.IsPrefix(ss, ds))
 		switch op {
 		case 10:
 			view.CopyFile(src, dst)
